@@ -35,7 +35,7 @@ func init() {
 		"(a) on start the store selects the completed checkpoint with the highest id among the stored snapshot files (by comparing ids, or through an order-preserving file naming); (b) obsolete snapshot files are removed and operators told what to retain only after the new snapshot file was written successfully, and the obsolete set is collected before the new snapshot joins the completed list; (c) the completed list is only replaced by a snapshot with a higher id; (d) RetainOnly keeps the named checkpoints, queues the others for destruction and refuses to drop everything (C09.f); (e) storage removal errors are not discarded.",
 		"crash points between individual storage operations (needs a storage model); timing of the asynchronous steps beyond the ordering and guards named above.")
 
-	register(&Obligation{ID: "C13.a", Props: []string{"C13"}, Template: "latest-selection",
+	register(&Obligation{ID: "C13.a", Props: []string{"C13", "C12", "C01"}, Template: "latest-selection",
 		Desc: "Store.LoadCheckpoint picks the stored job snapshot with the highest checkpoint id: it either compares the ids of all *.snapshot files, or takes the first listed file under a file naming that sorts newest first",
 		Run: func(r *Run) {
 			f := r.P.Func("storage/snapshots", "(*Store).LoadCheckpoint")
